@@ -72,7 +72,13 @@ def h_alloc(run, cfg):
     run.note('pos_before', pos_before)
     traded = bool(abs(q) >= 1e-16)          # bt executes any quantity that is not is_zero
     # the recorded cash movement is the full outlay of the executed quantity
-    run.check_near(spent, _cost(cfg, q) if traded else 0.0, EPS_MONEY, 'spent-is-full-outlay')
+    if run.mode != 'sym' and not traded and abs(spent) > EPS_MONEY:
+        # float resolution: a trade smaller than the ulp of the position cannot be seen in the position difference (e.g. -158.25 + 3e-12); the
+        # cash leg shows that bt traded - it must then be the cost of such a near-zero trade
+        near = min(abs(spent - _cost(cfg, 1e-12)), abs(spent - _cost(cfg, -1e-12)))
+        run.check(near <= EPS_MONEY, 'spent-is-full-outlay', 'position unchanged in floats, cash moved by %r' % (spent,))
+    else:
+        run.check_near(spent, _cost(cfg, q) if traded else 0.0, EPS_MONEY, 'spent-is-full-outlay')
     closing = bool(abs(amount + val0) < 1e-16)     # bt's own close-out test (is_zero)
     if closing:
         run.check_near(sec.position, 0.0, 1e-9, 'closeout-flat')
